@@ -3,9 +3,11 @@
   layout last_value@0 / log_cnt@8 / is_called@16 without the "modern format" guess, magic compared as
   u32, bounds check after the default t_hoff).  The code as written is in Model/SequenceOrig.lean.
   FindSequences / ScanAllSequences: the `os` calls are a file-system parameter; the pg_database and
-  pg_class parsers (other areas) are parameters too.
+  pg_class parsers (other areas) are parameters too; so is the iteration order of the `range` over the
+  pg_class map (fixes/control/08 sorts the filenodes, which makes the result independent of it: Props/C11Control).
 -/
 import PgVerif.Basic.Bytes
+import PgVerif.Model.KeySort
 namespace PgVerif.Model
 open PgVerif
 
@@ -90,14 +92,22 @@ deriving Repr, DecidableEq, Inhabited
 
 /-- the environment of the cluster-level functions: file reads (`os.ReadFile`, `none` = error), and the
 results of the pg_database / pg_class parsers on a file's bytes.  `parseClass` returns the map as an
-association list keyed by filenode (unique keys); Go iterates it in unspecified order — the model uses
-the list order, results are compared as sets. -/
+association list keyed by filenode (unique keys).  `order` is the order in which Go's `range tables` yields
+the entries of that map: unspecified, different from call to call — any rearrangement (`id` by default). -/
 structure SeqEnv where
   fs : String → Option Bytes
   parseDatabase : Bytes → List DbInfo
   parseClass : Bytes → List ClassInfo
+  order : List ClassInfo → List ClassInfo := id
 
-/-- the loop `for filenode, info := range tables { … }` of FindSequences over the relations in list order -/
+/-- the relations in the order FindSequences visits them (fixes/control/08): the filenodes are collected by ranging
+over the map (`env.order`), sorted ascending, and each is looked up again — the entries sorted by filenode
+(see Model/KeySort.lean) -/
+def seqVisitOrder (env : SeqEnv) (tables : List ClassInfo) : List ClassInfo :=
+  keySort (·.filenode) (env.order tables)
+
+/-- the loop `for _, filenode := range filenodes { info := tables[filenode]; … }` of FindSequences over the relations in
+the given order -/
 def findSeqLoop (env : SeqEnv) (basePath : String) : List ClassInfo → M (List SequenceData)
   | [] => pure []
   | info :: rest => do
@@ -121,7 +131,7 @@ def findSequences (env : SeqEnv) (dataDir : String) (dbName : Bytes) : M (Option
     let basePath := dataDir ++ "/base/" ++ toString dbOID
     match env.fs (basePath ++ "/1259") with
     | none => return none
-    | some classData => return some (← findSeqLoop env basePath (env.parseClass classData))
+    | some classData => return some (← findSeqLoop env basePath (seqVisitOrder env (env.parseClass classData)))
 
 def hasPrefix (s p : Bytes) : Bool := s.take p.length == p
 
